@@ -140,7 +140,9 @@ func (w *World) bindMode(txn statedb.ReadTxn, what string, skip map[int]bool, hi
 			}
 		}
 		if !historic && st.Idx < minVis && tc.M.Chain[minVis].Rev != st.Rev {
-			w.violate("C05", "stale-state", "%s shows table %s at revision %d (version %d) although version %d (revision %d) was already published: a committed write was lost",
+			// a lost committed write (C05) is also a table revision that went backwards (C09) and a snapshot
+			// from which a committed transaction vanished again (C02)
+			w.violate(w.attr("C05", "C09", "C02"), "stale-state", "%s shows table %s at revision %d (version %d) although version %d (revision %d) was already published: a committed write was lost",
 				what, tc.M.Name, rev, st.Idx, minVis, tc.M.Chain[minVis].Rev)
 			return nil
 		}
@@ -376,8 +378,23 @@ func (w *World) recordAnswers(prop string, txn statedb.ReadTxn, ti int, st *Tabl
 	tc := w.tables[ti]
 	qs := w.candidateQueries(tc, st)
 	var out []answer
-	for i := 0; i < n; i++ {
-		q := qs[w.C.Choose(len(qs))]
+	// always: the complete listing of every index (one query that covers the whole index), then a sample
+	var whole []Query
+	whole = append(whole, Query{Q: QAll}, Query{Q: QByRevision, Rev: 0})
+	for _, k := range append([]IndexKind{IdxPrimary}, tc.M.Kinds...) {
+		if k.isLPM() {
+			whole = append(whole, Query{Q: QPrefix, Kind: k, Pfx: Pfx{0, 0}}, Query{Q: QLowerBound, Kind: k, Pfx: Pfx{0, 0}})
+		} else {
+			whole = append(whole, Query{Q: QPrefix, Kind: k, Key: []byte{}}, Query{Q: QLowerBound, Kind: k, Key: []byte{}})
+		}
+	}
+	for i := 0; i < n+len(whole); i++ {
+		var q Query
+		if i < len(whole) {
+			q = whole[i]
+		} else {
+			q = qs[w.C.Choose(len(qs))]
+		}
 		a := answer{ti: ti, q: q}
 		if !w.guard(prop, q.String(), func() {
 			a.res, _ = realQuery(tc, txn, q, 0)
